@@ -273,6 +273,9 @@ pub enum FaultSpec {
     /// the k-th (1-based, counted over the scenario) validity query answers `false` whatever the
     /// state: a callback whose answer depends on the call history (deterministic, not pure)
     ValidityFalseAt { at_call: u64 },
+    /// the k-th validity query UNWINDS (the user's checker panics; the caller catches it and goes
+    /// on using the planner): an interruption at an arbitrary instant inside a call
+    ValidityPanicAt { at_call: u64 },
     /// the k-th (1-based, counted over the scenario) `sample_uniform` call returns Err
     UniformSamplerErr { at_call: u64 },
     /// the k-th `sample_goal` call returns Err
